@@ -1324,6 +1324,9 @@ func outcomeDigest(res *Result) uint64 {
 	}
 	for _, x := range res.X {
 		mixv(uint64(x.idx))
+		if x.ctxBad > 0 {
+			mixv(0xbadc7) // some user function did not get the directive's context
+		}
 		for _, v := range x.res {
 			mixv(v)
 		}
